@@ -27,14 +27,21 @@ import contextlib
 import copy
 import io
 import json
+import numbers
 import os
 import random
+import signal
+import threading
 import warnings
 from concurrent.futures import ThreadPoolExecutor
 
 # many small SVDs: BLAS threads only fight each other (and the TLC JVMs) for the cores
 for _v in ("OMP_NUM_THREADS", "OPENBLAS_NUM_THREADS", "MKL_NUM_THREADS"):
     os.environ.setdefault(_v, "1")
+
+# the trace spec peels dense count tables recursively (up to 190 levels): on a busy machine (frames not yet compiled) the JVM's
+# default thread stack of 1 MB has been seen to overflow on the unchanged tree (StackOverflowError = exit 2)
+os.environ.setdefault("JDK_JAVA_OPTIONS", "-Xss16m")
 
 import numpy as np  # noqa: E402
 
@@ -104,6 +111,116 @@ def mem_cap(extra_gb=12):
 
 
 # ------------------------------------------------------------------------------------------------
+# defensive observation of what the real code hands back (robustness audit after round h): whatever a call returns instead of what its
+# clause promises - None, a string, an array of another shape / dimensionality / element type, numbers that are no counts, an
+# exception of any class, no return at all - becomes the negative observation of that clause (a record the trace spec rejects, a
+# projection that is false), never a failure of this harness's own arithmetic
+# ------------------------------------------------------------------------------------------------
+
+CLIP = 10 ** 8                 # TLC's integers have 32 bits, and the clauses add up to four observed counts
+CALL_DEADLINE_S = 120          # the calls of this check take milliseconds to a few seconds
+MAX_HANGS = 3                  # calls that may run into the deadline before the rest of the run is abandoned
+_HUNG = []                     # the records of the calls that did (None for the calls of the numeric projections)
+
+
+class Hang(BaseException):
+    """not an Exception: it must pass through every `except Exception` between the timer and the call it bounds"""
+
+
+class Abandon(Exception):
+    """too many calls of the real code did not return: the rest of the run is not started (the violations stand)"""
+
+
+@contextlib.contextmanager
+def deadline(seconds=CALL_DEADLINE_S):
+    """bound the time the real code may take (a loop that never ends); only where signals can be delivered"""
+    if not hasattr(signal, "setitimer") or threading.current_thread() is not threading.main_thread():
+        yield
+        return
+
+    def on_alarm(signum, frame):
+        raise Hang()
+    old = signal.signal(signal.SIGALRM, on_alarm)
+    signal.setitimer(signal.ITIMER_REAL, seconds)
+    try:
+        yield
+    finally:
+        signal.setitimer(signal.ITIMER_REAL, 0)
+        signal.signal(signal.SIGALRM, old)
+
+
+def hung(rec=None):
+    """account a call that ran into the deadline; the third one abandons the run (run() reports what was observed until then)"""
+    _HUNG.append(rec)
+    if len(_HUNG) >= MAX_HANGS:
+        raise Abandon(f"{len(_HUNG)} calls of the real code did not return within {CALL_DEADLINE_S} s")
+
+
+def exc_name(e):
+    return "Timeout" if isinstance(e, Hang) else type(e).__name__
+
+
+def as_count(v, bad=-1):
+    """an observed count / index as an integer TLC can read: `bad` for anything that is no integer number (None, strings, NaN, 2.5,
+    arrays of several values); integers beyond +-10^8 are clipped (no count or index of this check comes near: they stay wrong)"""
+    try:
+        if v is None or isinstance(v, (str, bytes, bool, np.bool_)):
+            return bad
+        if isinstance(v, numbers.Integral):
+            i = int(v)
+        else:
+            a = np.asarray(v)
+            if a.size != 1 or a.dtype.kind not in "iuf":
+                return bad
+            f = float(a.reshape(-1)[0])
+            if not np.isfinite(f) or f != int(f):
+                return bad
+            i = int(f)
+    except Exception:  # noqa  objects that refuse the conversions above are no counts
+        return bad
+    return max(-CLIP, min(CLIP, i))
+
+
+def numbers_of(out, real_only=False):
+    """the returned object as an array of numbers, or None if it is none (None, strings, objects, ragged lists, dictionaries)"""
+    try:
+        a = np.asarray(out)
+    except Exception:  # noqa
+        return None
+    return a if a.dtype.kind in ("fiu" if real_only else "fiuc") else None
+
+
+def dev(out, ref):
+    """how far a returned array is from the expected one, for the report line (never raises)"""
+    a, ref = numbers_of(out), np.asarray(ref)
+    if a is None:
+        return f"no array of numbers ({type(out).__name__})"
+    if a.shape != ref.shape:
+        return f"shape {a.shape} instead of {ref.shape}"
+    if not a.size:
+        return "0"
+    return f"{float(np.max(np.abs(a - ref))):.3g}"
+
+
+def dist(out, ref):
+    """2-norm of the difference, for the report line (never raises)"""
+    a, ref = numbers_of(out), np.asarray(ref)
+    return f"{float(np.linalg.norm(a - ref)):.3g}" if a is not None and a.shape == ref.shape else dev(out, ref)
+
+
+def shape_of(out):
+    try:
+        return tuple(np.shape(out))
+    except Exception:  # noqa  ragged lists
+        return None
+
+
+def finite_like(out, shape, real_only=False):
+    a = numbers_of(out, real_only)
+    return a is not None and a.shape == tuple(shape) and bool(np.all(np.isfinite(a)))
+
+
+# ------------------------------------------------------------------------------------------------
 # (a) Venn
 # ------------------------------------------------------------------------------------------------
 
@@ -165,33 +282,46 @@ def venn_call(trains, binsize, chbin, nch, chunk, fs=30000, seq=tuple, bare=Fals
     before = [(t[0].copy(), t[1].copy()) for t in trains]
     for m, nm, _f in sites:
         setattr(m, nm, spy)
+    res = None
     try:
-        with quiet(), mem_cap():
+        with quiet(), mem_cap(), deadline():
             f = st.spikes_venn2 if ns == 2 else st.spikes_venn3
             if bare:
                 res = f(seq(t[0] for t in trains), seq(t[1] for t in trains))
             else:
                 res = f(seq(t[0] for t in trains), seq(t[1] for t in trains), samples_binsize=binsize,
                         channels_binsize=chbin, fs=fs, num_channels=nch, chunk_size=chunk)
-        names = [format(i, f"0{ns}b") for i in range(1, 2 ** ns)]
-        rec["ret"] = [int(res[n]) if n in res else -1 for n in names]
-        if set(res) != set(names):
-            rec["ret"] = []
-    except Exception as e:
-        rec["exc"] = type(e).__name__
+    except (Exception, SystemExit, Hang) as e:
+        rec["exc"] = exc_name(e)
     finally:
         for m, nm, f0 in sites:
             setattr(m, nm, f0)
+    if not rec["exc"]:
+        # "a dictionary of counts": anything that is not a mapping with exactly the region names gives the empty `ret` (clause Shape),
+        # a value that is no integer count is recorded as -1 (clause Shape as well)
+        names = [format(i, f"0{ns}b") for i in range(1, 2 ** ns)]
+        try:
+            keys = set(res.keys())
+            rec["ret"] = [as_count(res[n]) for n in names] if keys == set(names) else []
+        except Exception:  # noqa  no dictionary
+            rec["ret"] = []
     rec["mutated"] = any(a.dtype != a0.dtype or not np.array_equal(a, a0) for t, t0 in zip(trains, before) for a, a0 in zip(t, t0))
     if rec["mutated"]:
         rec["before"] = before
-    if len(got) % ns == 0 and not rec["exc"]:
-        for k in range(0, len(got), ns):
-            m = np.stack(got[k:k + ns])
-            nz = np.where(np.any(m != 0, axis=0))[0]
-            rec["chunks"].append([[int(v) if float(v).is_integer() else -1 for v in m[:, j]] for j in nz])
-    elif not rec["exc"]:
-        rec["chunks"] = [[[-1] * ns]]
+    if not rec["exc"]:
+        # bin_counts of the chunks, as bincount2D returned them to the code (the code decides what it asks bincount2D for: calls that
+        # do not come in groups of one per sorter, or with bins that differ between the sorters, are recorded as an undecodable chunk)
+        try:
+            if len(got) % ns:
+                raise ValueError("calls of bincount2D are not one per sorter and chunk")
+            for k in range(0, len(got), ns):
+                m = np.stack(got[k:k + ns])
+                nz = np.where(np.any(m != 0, axis=0))[0]
+                rec["chunks"].append([[as_count(v) for v in m[:, j]] for j in nz])
+        except Exception:  # noqa
+            rec["chunks"] = [[[-1] * ns]]
+    if rec["exc"] == "Timeout":
+        hung(rec)
     return rec
 
 
@@ -252,18 +382,33 @@ def stack_call(word, rnd, nrnd, agg, wkind="float", ddt="float64"):
         data = data.astype(np.float32)
     wl = {"float": lab.copy(), "int": lab.astype(np.int64), "int16": lab.astype(np.int16), "list": [int(v) for v in lab]}[wkind]
     rec = {"kind": "stack", "word": [int(v) for v in lab], "groups": [], "fold": [], "rows": [], "exc": ""}
+    ret = None
     try:
-        with quiet():
-            st, fold = voltage.stack(data.copy(), wl, fcn_agg=agg)
-        st = np.asarray(st, dtype=float)
-        fold = [int(f) for f in np.asarray(fold)]
-        tot = st[:, 0] * (np.array(fold) if agg is not np.sum else 1.0)
-        rec["fold"] = fold
-        rec["groups"] = [int(round(v / (f if agg is np.sum else 1))) if f else 10 ** 6 for v, f in zip(st[:, 1], fold)]
-        rec["rows"] = [[i + 1 for i in range(n) if (int(round(t)) >> i) & 1] if abs(t - round(t)) < 1e-6 and 0 <= t < 2 ** n
-                       else [0] for t in tot]
-    except Exception as e:
-        rec["exc"] = type(e).__name__
+        with quiet(), deadline():
+            ret = voltage.stack(data.copy(), wl, fcn_agg=agg)
+    except (Exception, SystemExit, Hang) as e:
+        rec["exc"] = exc_name(e)
+    if not rec["exc"]:
+        # (stack, fold): a two-dimensional array of numbers with the traces' samples, a vector of counts.  What cannot be read as
+        # that is recorded as no rows at all / as the fold -1, which the clause Stack rejects
+        try:
+            st, fold = ret
+            st, fold = numbers_of(st, real_only=True), np.asarray(fold)
+            if st is None or st.ndim != 2 or st.shape[1] != data.shape[1] or fold.ndim != 1:
+                raise ValueError("not a stack of the traces and a fold vector")
+            st = st.astype(float)
+            fold = [as_count(f) for f in fold]
+            rec["fold"] = fold
+            for v, t0, f in zip(st[:, 1], st[:, 0], fold):
+                g = v / (f if agg is np.sum else 1) if f > 0 else np.nan
+                rec["groups"].append(as_count(np.round(g), bad=10 ** 6))
+                t = t0 * (f if agg is not np.sum else 1.0)
+                ok = np.isfinite(t) and abs(t - round(t)) < 1e-6 and 0 <= t < 2 ** n
+                rec["rows"].append([i + 1 for i in range(n) if (int(round(t)) >> i) & 1] if ok else [0])
+        except Exception:  # noqa  the returned object is not what the docstring describes
+            rec["groups"], rec["fold"], rec["rows"] = [], [], []
+    if rec["exc"] == "Timeout":
+        hung(rec)
     return rec, np.asarray(data, dtype=float), lab
 
 
@@ -296,14 +441,29 @@ def layout_coords(present, rnd, kind="float"):
 def traj_call(nx, ny, cells, x, y):
     import ibldsp.cadzow as cadzow
     rec = {"kind": "traj", "nx": nx, "ny": ny, "cells": [list(c) for c in cells], "shape": [], "entries": [], "trcount": [], "exc": ""}
+    ret = None
     try:
-        with quiet():
-            T, it, itr, trcount = cadzow.trajectory(x, y)
-        rec["shape"] = [int(v) for v in T.shape]
-        rec["entries"] = [[int(r), int(c), int(t) + 1] for r, c, t in zip(it[0], it[1], itr)]
-        rec["trcount"] = [int(v) for v in trcount]
-    except Exception as e:
-        rec["exc"] = type(e).__name__
+        with quiet(), deadline():
+            ret = cadzow.trajectory(x, y)
+    except (Exception, SystemExit, Hang) as e:
+        rec["exc"] = exc_name(e)
+    if not rec["exc"]:
+        # (T, it, itr, trcount): what cannot be read as a matrix, two index vectors of the same length as itr, and a vector of counts
+        # is recorded as a trajectory without entries and counts (clause TrajShape)
+        try:
+            T, it, itr, trcount = ret
+            shape = [as_count(v) for v in np.shape(T)]
+            rows, cols, trs, cnt = np.asarray(it[0]), np.asarray(it[1]), np.asarray(itr), np.asarray(trcount)
+            if len(it) != 2 or any(v.ndim != 1 for v in (rows, cols, trs, cnt)) or not rows.size == cols.size == trs.size:
+                raise ValueError("not index vectors")
+            rec["shape"] = shape
+            # a trace index that is no integer is recorded as trace 0 (no trace: clause TrajShape)
+            rec["entries"] = [[as_count(r), as_count(c), as_count(t, bad=-1) + 1] for r, c, t in zip(rows, cols, trs)]
+            rec["trcount"] = [as_count(v) for v in cnt]
+        except Exception:  # noqa  the returned object is not what the docstring describes
+            rec["shape"], rec["entries"], rec["trcount"] = [], [], []
+    if rec["exc"] == "Timeout":
+        hung(rec)
     return rec
 
 
@@ -393,15 +553,18 @@ def as_layout(A, how):
 
 
 def p_same(out, ref, tol):
-    out, ref = np.asarray(out), np.asarray(ref)
-    if out.shape != ref.shape or not np.all(np.isfinite(out)):
+    """false as well for anything that is not an array of finite numbers of the expected shape"""
+    out, ref = numbers_of(out), np.asarray(ref)
+    if out is None or out.shape != ref.shape or not np.all(np.isfinite(out)):
         return False
+    if not ref.size:
+        return True
     return float(np.max(np.abs(out - ref))) <= tol * max(1.0, float(np.max(np.abs(ref))))
 
 
 def p_reduced(out, clean, noisy):
-    out = np.asarray(out)
-    if out.shape != np.asarray(clean).shape or not np.all(np.isfinite(out)):
+    out = numbers_of(out)
+    if out is None or out.shape != np.asarray(clean).shape or not np.all(np.isfinite(out)):
         return False
     return float(np.linalg.norm(out - clean)) < float(np.linalg.norm(np.asarray(noisy) - clean))
 
@@ -409,10 +572,14 @@ def p_reduced(out, clean, noisy):
 def real(ctx, key, what, sc, f, *a, **k):
     """call the real code; an exception on an input of the property's domain is a violation ("returns ...")"""
     try:
-        with quiet():
+        with quiet(), deadline():
             return True, f(*a, **k)
-    except Exception as e:
+    except (Exception, SystemExit) as e:
         ctx.violation(key + "-raised", f"{what} raised {type(e).__name__}: {str(e)[:120]}", sc)
+        return False, None
+    except Hang:
+        ctx.violation(key + "-raised", f"{what} did not return within {CALL_DEADLINE_S} s", sc)
+        hung()
         return False, None
 
 
@@ -461,10 +628,12 @@ def numeric_np1(ctx, rnd, nrnd, fullrank, n):
         if not ok:
             continue
         keep = int(np.sum(np.fft.rfftfreq(ns, d=1 / fs) < fmax))              # frequencies strictly below fmax are de-ranked and kept
+        if not finite_like(out, wav.shape, real_only=True):
+            ctx.violation("cadzow:full-rank-identity", f"{what} returns {type(out).__name__} of shape {shape_of(out)} / values that are no "
+                          f"finite real numbers", sc)
+            continue
         out = np.asarray(out)
-        if out.shape != wav.shape or not np.all(np.isfinite(out)):
-            ctx.violation("cadzow:full-rank-identity", f"{what} returns shape {out.shape} / non-finite values", sc)
-        elif not p_same(np.fft.rfft(out)[:, :keep], np.fft.rfft(wav)[:, :keep], 1e-9) or not np.array_equal(arg, wav):
+        if not p_same(np.fft.rfft(out)[:, :keep], np.fft.rfft(wav)[:, :keep], 1e-9) or not np.array_equal(arg, wav):
             ctx.violation("cadzow:full-rank-identity", f"{what}: at the full rank of every window the {keep} frequencies below fmax change by "
                           f"{np.max(np.abs(np.fft.rfft(out)[:, :keep] - np.fft.rfft(wav)[:, :keep])):.3g}"
                           f"{'' if np.array_equal(arg, wav) else ' and the input array was modified'}", sc)
@@ -513,9 +682,9 @@ def numeric_cadzow(ctx, rnd, nrnd, fullrank, n_id, n_noise):
             done += 1
         ok, out = real(ctx, "cadzow:full-rank-identity", what, dict(sc, case="full"), cadzow.denoise, arg, x, y, full, imax=imax, niter=niter)
         done += 1
-        if ok and (np.asarray(out).shape != W.shape or not p_same(np.asarray(out)[:, :keep], W[:, :keep], tol)):
+        if ok and (shape_of(out) != W.shape or not p_same(np.asarray(out)[:, :keep], W[:, :keep], tol)):
             ctx.violation("cadzow:full-rank-identity", f"{what} changes its input by "
-                          f"{np.max(np.abs(out[:, :keep] - W[:, :keep])) if np.asarray(out).shape == W.shape else 'shape ' + str(np.asarray(out).shape)}"
+                          f"{dev(np.asarray(out)[:, :keep], W[:, :keep]) if shape_of(out) == W.shape else dev(out, W)}"
                           f"{' (the same array had been de-ranked by an earlier call)' if k % 3 == 0 and full > 1 else ''}", dict(sc, case="full"))
         if k % 4 == 1:
             # the same grid again with the traces in another order and another origin (nothing may be remembered from the call before)
@@ -528,7 +697,7 @@ def numeric_cadzow(ctx, rnd, nrnd, fullrank, n_id, n_noise):
             done += 1
             if ok and not p_same(out, W2, 1e-9):
                 ctx.violation("cadzow:full-rank-identity", f"cadzow.denoise on a {nx}x{ny} layout at full rank {full}, called after the same grid "
-                              f"with another trace order, changes its input by {np.max(np.abs(out - W2)):.3g}", dict(sc, case="full"))
+                              f"with another trace order, changes its input by {dev(out, W2)}", dict(sc, case="full"))
         if not stag and not holes:
             P = plane_waves(x, y, nf, nrnd, 1)
             for r in range(1, min(3, full) + 1):
@@ -537,7 +706,7 @@ def numeric_cadzow(ctx, rnd, nrnd, fullrank, n_id, n_noise):
                 done += 1
                 if ok and not p_same(out, P, 1e-9):
                     ctx.violation("cadzow:plane-wave-identity", f"cadzow.denoise of one plane wave on a {nx}x{ny} grid at rank {r} "
-                                  f"changes its input by {np.max(np.abs(out - P)):.3g}", dict(sc, case="plane", rank=r))
+                                  f"changes its input by {dev(out, P)}", dict(sc, case="plane", rank=r))
     # noise reduction below full rank: well-posed scenarios (regular grid with >= 16 rows, rank = number of waves; measured
     # error ratio <= 0.6 over 8 seeds, required < 1)
     shapes = [(nx, ny) for nx in range(1, 5) for ny in range(16, 41)]
@@ -556,7 +725,7 @@ def numeric_cadzow(ctx, rnd, nrnd, fullrank, n_id, n_noise):
         done += 1
         if ok and not p_reduced(out, S, noisy):
             ctx.violation("cadzow:noise-reduced", f"cadzow.denoise at rank {nw} on a {nx}x{ny} grid does not reduce the added noise: "
-                          f"error {np.linalg.norm(out - S):.3g} vs noise {np.linalg.norm(Nz):.3g}", {"kind": "cadzow", "case": "noise"})
+                          f"error {dist(out, S)} vs noise {np.linalg.norm(Nz):.3g}", {"kind": "cadzow", "case": "noise"})
         # the caller's noisy array again, now at full rank: it comes back as the caller made it
         full = fullrank[nx - 1][ny - 1]
         ok, out = real(ctx, "cadzow:full-rank-identity", f"cadzow.denoise on a {nx}x{ny} grid at full rank {full}", {"kind": "cadzow", "case": "noise"},
@@ -564,7 +733,7 @@ def numeric_cadzow(ctx, rnd, nrnd, fullrank, n_id, n_noise):
         done += 1
         if ok and not p_same(out, noisy, 1e-9):
             ctx.violation("cadzow:full-rank-identity", f"cadzow.denoise on a {nx}x{ny} grid at full rank {full}, given the array that a call at "
-                          f"rank {nw} was given before, differs from the caller's data by {np.max(np.abs(out - noisy)):.3g}", {"kind": "cadzow", "case": "noise"})
+                          f"rank {nw} was given before, differs from the caller's data by {dev(out, noisy)}", {"kind": "cadzow", "case": "noise"})
     ctx.count(done)
     return done
 
@@ -597,7 +766,7 @@ def numeric_svd(ctx, rnd, nrnd, n):
             done += 1
             if ok and not p_same(out, D, tol):
                 ctx.violation("svd:full-rank-identity", f"svd_denoise_npx({nc}x{ns} {D.dtype}, rank={rank}, collection={'None' if c is None else c.tolist()}) "
-                              f"changes its input by {np.max(np.abs(out - D)) if np.asarray(out).shape == D.shape else 'shape ' + str(np.asarray(out).shape)}",
+                              f"changes its input by {dev(out, D)}",
                               {"kind": "svd"})
         # low-rank signal + noise, requested rank = rank of the signal
         k = rnd.choice([1, 2, 3])
@@ -615,12 +784,12 @@ def numeric_svd(ctx, rnd, nrnd, n):
             done += 1
             if ok and not p_same(out, noisy, 1e-9):
                 ctx.violation("svd:full-rank-identity", f"svd_denoise_npx({nc}x{ns}, rank={nc}), given the array that a call at rank {k} was given "
-                              f"before, differs from the caller's data by {np.max(np.abs(out - noisy)):.3g}", {"kind": "svd"})
+                              f"before, differs from the caller's data by {dev(out, noisy)}", {"kind": "svd"})
             ok, out = real(ctx, "svd:rank-k-identity", f"svd_denoise_npx({nc}x{ns}, rank={k})", {"kind": "svd"}, voltage.svd_denoise_npx, S.copy(), rank=k)
             done += 1
             if ok and not p_same(out, S, 1e-9):
                 ctx.violation("svd:rank-k-identity", f"svd_denoise_npx of a rank-{k} {nc}x{ns} matrix at rank {k} changes its input by "
-                              f"{np.max(np.abs(out - S)):.3g}", {"kind": "svd"})
+                              f"{dev(out, S)}", {"kind": "svd"})
     # ranks 1..full on data of exactly that rank, over the channel counts of the layouts of the quantifier (1-4 columns x 4-40
     # rows): the per-collection rank handed to the truncated SVD must not fall below the rank asked for
     ncs = sorted({c * r for c in (1, 2, 3, 4) for r in range(4, 41)})
@@ -636,7 +805,7 @@ def numeric_svd(ctx, rnd, nrnd, n):
             done += 1
             if ok and not p_same(out, S, 1e-8):
                 ctx.violation("svd:rank-k-identity", f"svd_denoise_npx of a rank-{k} {nc}x{ns} matrix at rank {k} changes its input by "
-                              f"{np.max(np.abs(out - S)):.3g}", {"kind": "svd"})
+                              f"{dev(out, S)}", {"kind": "svd"})
         # collections (shanks): each block of channels has exactly the share of the rank that its size gives it (integer arithmetic)
         for ng in (2, 3, 4):
             if nc % ng or nc // ng < 4:
@@ -652,7 +821,7 @@ def numeric_svd(ctx, rnd, nrnd, n):
                 done += 1
                 if ok and not p_same(out, S, 1e-8):
                     ctx.violation("svd:rank-k-identity", f"svd_denoise_npx of {ng} collections of rank {kb} ({nc}x{ns}) at rank {k} changes its "
-                                  f"input by {np.max(np.abs(out - S)):.3g}", {"kind": "svd"})
+                                  f"input by {dev(out, S)}", {"kind": "svd"})
     ctx.count(done)
     return done
 
@@ -680,10 +849,9 @@ def numeric_smooth(ctx, rnd, nrnd, n):
         ok, out = real(ctx, "smooth:lp", f"smooth.lp(n={m}, fac={fac}, pad={pad})", {"kind": "smooth"}, smooth.lp, x, facarg, **kw)
         ok2, out2 = real(ctx, "smooth:lp", f"smooth.lp(n={m}, fac={fac}, pad={pad})", {"kind": "smooth"}, smooth.lp, z, facarg, **kw)
         done += 2
-        if ok and ok2 and (not p_same(out, x0, 1e-9) or np.asarray(out2).shape != z.shape):
+        if ok and ok2 and (not p_same(out, x0, 1e-9) or shape_of(out2) != z.shape):
             ctx.violation("smooth:lp", f"smooth.lp(n={m} {x0.dtype}, fac={fac}, pad={pad}): constant {c} -> deviation "
-                          f"{np.max(np.abs(np.asarray(out) - c)) if np.asarray(out).shape == x.shape else 'shape ' + str(np.asarray(out).shape)}, "
-                          f"random input length {np.asarray(out2).shape}", {"kind": "smooth"})
+                          f"{dev(out, x0)}, random input length {shape_of(out2)}", {"kind": "smooth"})
         if ok and ok2 and it % 2:
             # another constant of the same length and options right afterwards (nothing of the calls before may come back)
             x2 = np.full(m, float(c) + 2.0)
@@ -691,7 +859,7 @@ def numeric_smooth(ctx, rnd, nrnd, n):
             done += 1
             if ok and not p_same(out, x2, 1e-9):
                 ctx.violation("smooth:lp", f"smooth.lp(n={m}, fac={fac}, pad={pad}), called after two signals of the same length: constant {c + 2.0} -> "
-                              f"deviation {np.max(np.abs(np.asarray(out) - x2)) if np.asarray(out).shape == x2.shape else 'shape ' + str(np.asarray(out).shape)}",
+                              f"deviation {dev(out, x2)}",
                               {"kind": "smooth"})
         wl = rnd.choice([1, 3, 5, 7, 9, 11, 15, 21, 31, 2, 4, 6, 8, 10, 12, 20, 30])    # the docstring recommends odd lengths; the clause has no such limit
         win = rnd.choice(["flat", "hanning", "hamming", "bartlett", "blackman"])
@@ -707,10 +875,9 @@ def numeric_smooth(ctx, rnd, nrnd, n):
             ok2, out2 = real(ctx, "smooth:rolling-window", f"smooth.rolling_window(list, n={m}, window_len={wl}, {win})", {"kind": "smooth"},
                              smooth.rolling_window, list(z) if it % 3 else z, **kw)
             done += 2
-            if ok and ok2 and (not p_same(out, x0, 1e-9) or np.asarray(out2).shape != z.shape):
+            if ok and ok2 and (not p_same(out, x0, 1e-9) or shape_of(out2) != z.shape):
                 ctx.violation("smooth:rolling-window", f"smooth.rolling_window(n={m} {x0.dtype}, window_len={wl}, {win}): constant {c} -> "
-                              f"{np.asarray(out).shape} max dev {np.max(np.abs(np.asarray(out) - c)) if np.asarray(out).shape == x.shape else 'n/a'}, "
-                              f"random input length {np.asarray(out2).shape}", {"kind": "smooth"})
+                              f"{shape_of(out)} max dev {dev(out, x0)}, random input length {shape_of(out2)}", {"kind": "smooth"})
             if ok and ok2 and it % 2 == 0:
                 x2 = np.full(m, float(c) - 1.5)
                 ok, out = real(ctx, "smooth:rolling-window", f"smooth.rolling_window(n={m}, window_len={wl}, {win})", {"kind": "smooth"},
@@ -718,8 +885,8 @@ def numeric_smooth(ctx, rnd, nrnd, n):
                 done += 1
                 if ok and not p_same(out, x2, 1e-9):
                     ctx.violation("smooth:rolling-window", f"smooth.rolling_window(n={m}, window_len={wl}, {win}), called after two signals of the "
-                                  f"same length: constant {c - 1.5} -> {np.asarray(out).shape} max dev "
-                                  f"{np.max(np.abs(np.asarray(out) - x2)) if np.asarray(out).shape == x2.shape else 'n/a'}", {"kind": "smooth"})
+                                  f"same length: constant {c - 1.5} -> {shape_of(out)} max dev "
+                                  f"{dev(out, x2)}", {"kind": "smooth"})
         # non-uniform Savitzky-Golay: polynomials up to the order, irregular abscissae; orders up to window - 1 (the largest the
         # function accepts) for the short windows; abscissae / ordinates as arrays or as the lists of floats the docstring names
         order = rnd.choice([0, 1, 2, 3, 4])
@@ -741,7 +908,7 @@ def numeric_smooth(ctx, rnd, nrnd, n):
             if ok and not p_same(out, yy, 1e-6):
                 ctx.violation("smooth:savgol-polynomial", f"non_uniform_savgol(window={window}, polynom={order}{', lists' if aslist else ''}) does not "
                               f"reproduce a polynomial of degree {deg} on {npts} irregular abscissae: max error "
-                              f"{np.max(np.abs(out - yy)) if np.asarray(out).shape == yy.shape else 'shape ' + str(np.asarray(out).shape)}", {"kind": "smooth"})
+                              f"{dev(out, yy)}", {"kind": "smooth"})
         # NaN gaps
         npts = rnd.randint(80, 400)
         sig = np.sin(np.arange(npts) / rnd.uniform(5, 40)) + 0.1 * nrnd.standard_normal(npts) + rnd.choice([0.0, 0.0, 250.0])
@@ -765,7 +932,7 @@ def numeric_smooth(ctx, rnd, nrnd, n):
             ok, out = real(ctx, "smooth:savgol-nan", f"smooth_interpolate_savgol(n={npts}, window={window}, order={order}, NaN pattern {pat})",
                            {"kind": "smooth"}, smooth.smooth_interpolate_savgol, sarg, **kw)
             done += 1
-            if ok and (np.asarray(out).shape != sig.shape or not np.all(np.isfinite(out))):
+            if ok and not finite_like(out, sig.shape, real_only=True):
                 ctx.violation("smooth:savgol-nan", f"smooth_interpolate_savgol(n={npts}, window={window}, order={order}, NaN pattern {pat}) "
                               f"returns non-finite values or a different length", {"kind": "smooth"})
     ctx.count(done)
@@ -777,6 +944,22 @@ def numeric_smooth(ctx, rnd, nrnd, n):
 # ------------------------------------------------------------------------------------------------
 
 def run(ctx):
+    recs = []
+    del _HUNG[:]
+    try:
+        _run(ctx, recs)
+    except Abandon as e:
+        # the calls that did not return are violations of their clauses: report them (and whatever else the records made until then
+        # show) instead of waiting for the remaining calls
+        ctx.log(f"[C20] {e}: the rest of the run is not started")
+        recs += [t for t in _HUNG if t is not None and not any(t is u for u in recs)]
+        if recs and not getattr(ctx, "_c20_validated", False):
+            validate(ctx, recs, "calls-before-abandon")
+        if not ctx.violations:
+            raise tlc.TLCError(f"{e}, but no violation was recorded")
+
+
+def _run(ctx, recs):
     ctx.level = "model_checking"
     rnd = random.Random(ctx.seed)
     nrnd = np.random.default_rng(ctx.seed)
@@ -798,7 +981,6 @@ def run(ctx):
             if zero:
                 raise tlc.TLCError(f"{c}: actions never taken: {sorted(zero)}")
     _t(ctx, "models")
-    recs = []
     # 2./3. venn
     memo_numba_jit()
     sdts = ["int64", "int64", "int32", "uint32", "uint64", "float64"]
@@ -962,11 +1144,22 @@ def run(ctx):
     rnd.shuffle(order)
     shuf = [recs[i] for i in order]
     verdicts = validate(ctx, shuf, "calls")
+    ctx._c20_validated = True
     bad = {id(shuf[v["index"]]) for v in verdicts}
     for t, what in mism:
-        if id(t) not in bad:
-            raise tlc.TLCError(f"spec->code: {describe(t)} differs from the exported expectation ({what}) but the trace spec accepted "
-                               f"that call: the two bindings disagree")
+        if id(t) in bad:
+            continue
+        if t["kind"] == "venn":
+            # the trace spec peels the bin counts that the code itself asked bincount2D for; the expectation is the peeling of the
+            # table the harness planted with the bin sizes it passed.  A call that both accept apart binned the spikes otherwise
+            # than it was asked to: spikes that share no bin are counted as coincident or the reverse (the same verdict as for the
+            # dense tables above)
+            ctx.violation("venn:attribution", f"{describe(t)}: {what} for the planted count table (spec/lib/Counting.tla), while the bin "
+                          f"counts the call worked on peel to what it returned: spikes are attributed to another region than their bins "
+                          f"(as given by samples_binsize / channels_binsize) say", t.get("scenario", {"kind": "venn"}))
+            continue
+        raise tlc.TLCError(f"spec->code: {describe(t)} differs from the exported expectation ({what}) but the trace spec accepted "
+                           f"that call: the two bindings disagree")
     ctx.cov["spec_to_code_cases"] = sum(1 for t in recs if "exp" in t)
     _t(ctx, "calls validated")
     # 4. numeric projections
@@ -1011,27 +1204,48 @@ def stack_numeric(ctx, c, data, lab, byword=None):
     c2 = (byword or {}).get(tuple(reversed(c["word"])))
     lab2 = lab[::-1].copy()
     ok = False
+
+    class Raised(Exception):
+        pass
+
+    def call(*a, **k):
+        try:
+            with deadline():
+                return voltage.stack(*a, **k)
+        except (Exception, SystemExit, Hang) as e:
+            raise Raised(e) from None
     with quiet():
         try:
-            med, _ = voltage.stack(dat, lb, fcn_agg=np.median)
-            nm, _ = voltage.stack(d2.copy(), lb)
-            _, hs = voltage.stack(dat, lb, header=hdr)
-            ok = (med.shape[0] == len(rows) and all(np.allclose(med[k], np.median(data[r], axis=0), rtol=1e-9, atol=1e-12) for k, r in enumerate(rows))
-                  and all(np.allclose(nm[k], np.nanmean(d2[r], axis=0), rtol=1e-9, atol=1e-12, equal_nan=True) for k, r in enumerate(rows))
-                  and list(np.asarray(hs["fold"])) == c["exp"]["fold"]
-                  and all(np.allclose(hs["a"][k], np.mean(r), rtol=1e-9) for k, r in enumerate(rows)))
-            ctx.count(3)
-            if ok and c2 is not None:
-                rows2 = [np.array(r) - 1 for r in c2["exp"]["rows"]]
-                st2, hs2 = voltage.stack(dat, lab2, header=hdr, fcn_agg=np.sum)
-                ctx.count(1)
-                ok = (st2.shape[0] == len(rows2) and list(np.asarray(hs2["fold"])) == c2["exp"]["fold"]
-                      and all(np.allclose(st2[k], np.sum(data[r], axis=0), rtol=1e-9, atol=1e-12) for k, r in enumerate(rows2))
-                      and all(np.allclose(hs2["a"][k], np.mean(r), rtol=1e-9) and np.allclose(hs2["b"][k], np.mean(data[r, 2]), rtol=1e-9, atol=1e-12)
-                              for k, r in enumerate(rows2)))
-        except Exception as e:
-            ctx.violation("stack:aggregate-raised", f"stack(word={c['word']}) with median / NaN / header raised {type(e).__name__}: {str(e)[:120]}",
+            try:
+                r_med = call(dat, lb, fcn_agg=np.median)
+                r_nm = call(d2.copy(), lb)
+                r_hs = call(dat, lb, header=hdr)
+                ctx.count(3)
+                (med, _), (nm, _), (_, hs) = r_med, r_nm, r_hs
+                ok = (med.shape[0] == len(rows) and all(np.allclose(med[k], np.median(data[r], axis=0), rtol=1e-9, atol=1e-12) for k, r in enumerate(rows))
+                      and all(np.allclose(nm[k], np.nanmean(d2[r], axis=0), rtol=1e-9, atol=1e-12, equal_nan=True) for k, r in enumerate(rows))
+                      and list(np.asarray(hs["fold"])) == c["exp"]["fold"]
+                      and all(np.allclose(hs["a"][k], np.mean(r), rtol=1e-9) for k, r in enumerate(rows)))
+                if ok and c2 is not None:
+                    rows2 = [np.array(r) - 1 for r in c2["exp"]["rows"]]
+                    r_st2 = call(dat, lab2, header=hdr, fcn_agg=np.sum)
+                    ctx.count(1)
+                    st2, hs2 = r_st2
+                    ok = (st2.shape[0] == len(rows2) and list(np.asarray(hs2["fold"])) == c2["exp"]["fold"]
+                          and all(np.allclose(st2[k], np.sum(data[r], axis=0), rtol=1e-9, atol=1e-12) for k, r in enumerate(rows2))
+                          and all(np.allclose(hs2["a"][k], np.mean(r), rtol=1e-9) and np.allclose(hs2["b"][k], np.mean(data[r, 2]), rtol=1e-9, atol=1e-12)
+                                  for k, r in enumerate(rows2)))
+                ok = bool(ok)
+            except Raised:
+                raise
+            except Exception:  # noqa  what was returned cannot be read as (stack, fold / header with a fold): not the aggregates
+                ok = False
+        except Raised as w:
+            e = w.args[0]
+            ctx.violation("stack:aggregate-raised", f"stack(word={c['word']}) with median / NaN / header raised {exc_name(e)}: {str(e)[:120]}",
                           {"kind": "stack", "word": c["word"], "agg": "numeric"})
+            if isinstance(e, Hang):
+                hung()
             return
     if not ok:
         ctx.violation("stack:aggregate", f"stack(word={c['word']}): median / nanmean / header aggregates (header dictionary and arrays used for "
@@ -1123,6 +1337,19 @@ def selftest(ctx, recs, bad):
 
 
 def replay(ctx, sc):
+    del _HUNG[:]
+    try:
+        _replay(ctx, sc)
+    except Abandon as e:
+        ctx.log(f"[C20] {e}: the rest of the replay is not started")
+        hung_recs = [t for t in _HUNG if t is not None]
+        if hung_recs:
+            validate(ctx, hung_recs, "replay-before-abandon", jvms=1)
+        if not ctx.violations:
+            raise tlc.TLCError(f"{e}, but no violation was recorded")
+
+
+def _replay(ctx, sc):
     memo_numba_jit()
     rnd = random.Random(ctx.seed)
     nrnd = np.random.default_rng(ctx.seed)
